@@ -372,6 +372,18 @@ def g3(ctx, res):
             and has("return self.additional", t.handlers[0].body)
     res.check(ok and ok2, ii, "not a list -> items; in range -> items[i]; beyond -> additional",
               reason="index resolution follows items / tuple items / additionalItems")
+    iinit = ctx.func("Items.__init__")
+    ip = iinit.params[1].name
+    ok_items = False
+    for node, b in find(f"self.items = MV_a if MV_t else MV_b", iinit):
+        a = np_atom(b["MV_t"])
+        if a and a[0] == ip:
+            np_branch, other_branch = (b["MV_a"], b["MV_b"]) if a[1] else (b["MV_b"], b["MV_a"])
+            ok_items = norm(np_branch) == "Element()" and norm(other_branch) == ip
+    if has(f"if isinstance({ip}, NotPassed):\n    self.items = Element()\nelse:\n    self.items = {ip}", iinit):
+        ok_items = True
+    res.check(ok_items, iinit, "self.items = Element() if items is not passed else items",
+              reason="only a MISSING items keyword means accept-anything; [] and the false schema are falsy but meaningful")
     for cname in ("Items", "Properties"):
         init = ctx.func(f"{cname}.__init__")
         a = "additional"
@@ -954,6 +966,14 @@ def g10(ctx, res):
     if lam is not None:
         res.check(has(f"return {norm(lam.node) if False else 'MV_f'}(self) == MV_f({other})", eq), eq,
                   "return pub_vars(self) == pub_vars(other)", reason="the filtered attribute dicts are compared for equality")
+    for c in element_family(ctx):
+        for dunder in ("__eq__", "__ne__", "__hash__"):
+            if dunder in c.methods and c.name not in ("Element", "ObjectMeta"):
+                res.violation(c.methods[dunder], f"{c.name}.{dunder}",
+                              reason="an element subclass overrides equality: the exact-type, every-attribute equality that makes "
+                                     "equal elements interchangeable no longer applies to it")
+    res.check("__eq__" not in ctx.cls("ObjectMeta").methods, ctx.cls("ObjectMeta").qualname, "ObjectMeta inherits Element.__eq__",
+              reason="object classes compare like every other element")
     peq = ctx.func("_Property.__eq__")
     other = peq.params[1].name
     init = own_init(ctx.cls("_Property"))
